@@ -290,10 +290,12 @@ type world struct {
 	atkKS *nutsCrypto.Crypto
 	run   *runState
 	seq   int
+	// lastIndex: the highest index Entry() hands out on a page (discovered by calibrate(); maxIndex in the code as it is)
+	lastIndex int
 }
 
 func buildWorld(t *testing.T, in input) *world {
-	w := &world{t: t, ctx: audit.TestContext(), in: in, res: &memResolver{docs: map[string]*did.Document{}}, nodes: map[string]*verifierNode{}}
+	w := &world{t: t, lastIndex: maxIndex, ctx: audit.TestContext(), in: in, res: &memResolver{docs: map[string]*did.Document{}}, nodes: map[string]*verifierNode{}}
 	w.jl = jsonld.NewTestJSONLDManager(t)
 	dir := t.TempDir()
 	keyRes := resolver.DIDKeyResolver{Resolver: w.res}
@@ -459,28 +461,28 @@ type tickMark struct {
 }
 
 type runState struct {
-	w         *world
-	sc        script
-	sid       string
-	res       *result
-	stepNo    int
-	web, nuts map[string]did.DID
-	atkWeb    did.DID
-	atkNuts   did.DID
-	atkWebKid string
+	w          *world
+	sc         script
+	sid        string
+	res        *result
+	stepNo     int
+	web, nuts  map[string]did.DID
+	atkWeb     did.DID
+	atkNuts    did.DID
+	atkWebKid  string
 	atkNutsKid string
-	creds     map[string]*credInfo
-	order     []string
-	slotIndex []int
-	alloc     map[string][]int          // issuer -> entries handed out per page (reference)
-	lastURL   map[string]string         // issuer -> list URL of the last entry
-	usedSlots map[string]string         // url#index -> credential
-	must      map[string]map[string]bool // node -> credentials the node is obliged to reject
-	lastBits  map[string][]int          // url -> bits of the previous served version
-	delivered map[string]string         // node|url -> mode of the last list document the node received for the URL
-	aged      int64
-	timeline  []tickMark
-	dummyRev  map[string][]byte
+	creds      map[string]*credInfo
+	order      []string
+	slotIndex  []int
+	alloc      map[string][]int           // issuer -> entries handed out per page (reference)
+	lastURL    map[string]string          // issuer -> list URL of the last entry
+	usedSlots  map[string]string          // url#index -> credential
+	must       map[string]map[string]bool // node -> credentials the node is obliged to reject
+	lastBits   map[string][]int           // url -> bits of the previous served version
+	delivered  map[string]string          // node|url -> mode of the last list document the node received for the URL
+	aged       int64
+	timeline   []tickMark
+	dummyRev   map[string][]byte
 }
 
 func (r *runState) viol(kind, site, detail string) {
@@ -526,19 +528,19 @@ func (w *world) newRun(sc script) (*runState, error) {
 	}
 	rnd := rand.New(rand.NewSource(sc.Seed))
 	r.slotIndex = make([]int, b)
-	r.slotIndex[b-1] = maxIndex
+	r.slotIndex[b-1] = w.lastIndex
 	mids := map[int]bool{}
 	for k := 1; k < b-1; k++ {
 		if sc.Jump == "mid" {
 			for {
-				v := 1 + rnd.Intn(maxIndex-2)
+				v := 1 + rnd.Intn(w.lastIndex-2)
 				if !mids[v] {
 					mids[v] = true
 					break
 				}
 			}
 		} else {
-			mids[maxIndex-(b-1-k)] = true
+			mids[w.lastIndex-(b-1-k)] = true
 		}
 	}
 	var ms []int
@@ -991,7 +993,7 @@ func (r *runState) doStep(st step) error {
 	return nil
 }
 
-func pageOf(url string) int { _, p, _ := parseListURL(url); return p }
+func pageOf(url string) int         { _, p, _ := parseListURL(url); return p }
 func issuerOfURL(url string) string { d, _, _ := parseListURL(url); return d.String() }
 
 func (r *runState) modelIssuer(d string) string {
@@ -1137,7 +1139,7 @@ func (w *world) smoke(sp smokeSpec) *result {
 	}
 	// i1 rolls over to page 2 in the middle of the run
 	half := sp.Goroutines * sp.Per / 4
-	if err := w.inode.db.Exec("UPDATE status_list SET last_issued_index = ? WHERE subject_id = ?", maxIndex-half, first["i1"].url).Error; err != nil {
+	if err := w.inode.db.Exec("UPDATE status_list SET last_issued_index = ? WHERE subject_id = ?", w.lastIndex-half, first["i1"].url).Error; err != nil {
 		r.res.Error = err.Error()
 		return r.res
 	}
@@ -1283,36 +1285,58 @@ func (w *world) smoke(sp smokeSpec) *result {
 	return r.res
 }
 
-// calibrate: the constants this driver mirrors must be the ones of the code under test (otherwise: inconclusive)
+// calibrate: discovers where a page ends (the highest index Entry() hands out before it rolls over to the next page), so
+// that a harmless change of the page size does not invalidate the mapping of model slots onto real indexes.
+// The bitstring itself must keep its 16KB (131072 positions): anything else is inconclusive.
 func (w *world) calibrate() error {
 	r, err := w.newRun(script{ID: "calibrate", Jump: "end"})
 	if err != nil {
 		return err
 	}
-	c, err := w.inode.iss.Issue(w.ctx, template(r.web["i1"]), issuer.CredentialOptions{WithStatusListRevocation: true})
+	issue := func() (string, int, error) {
+		c, err := w.inode.iss.Issue(w.ctx, template(r.web["i1"]), issuer.CredentialOptions{WithStatusListRevocation: true})
+		if err != nil {
+			return "", 0, err
+		}
+		e, err := entryOf(c)
+		if err != nil {
+			return "", 0, err
+		}
+		idx, err := strconv.Atoi(e.StatusListIndex)
+		return e.StatusListCredential, idx, err
+	}
+	url1, idx, err := issue()
 	if err != nil {
 		return err
 	}
-	e, err := entryOf(c)
-	if err != nil {
-		return err
+	if idx != 0 {
+		return fmt.Errorf("first entry of a new issuer is %s#%d, expected index 0", url1, idx)
 	}
-	var urls []string
-	for _, preset := range []int{maxIndex - 1, maxIndex} {
-		if err := w.inode.db.Exec("UPDATE status_list SET last_issued_index = ? WHERE subject_id = ?", preset, e.StatusListCredential).Error; err != nil {
+	// each call is preceded by its own preset, so the result does not depend on the index being persisted correctly
+	last := -1
+	for _, preset := range []int{maxIndex - 4, maxIndex - 3, maxIndex - 2, maxIndex - 1, maxIndex} {
+		if err := w.inode.db.Exec("UPDATE status_list SET last_issued_index = ? WHERE subject_id = ?", preset, url1).Error; err != nil {
 			return err
 		}
-		c, err := w.inode.iss.Issue(w.ctx, template(r.web["i1"]), issuer.CredentialOptions{WithStatusListRevocation: true})
+		url, idx, err := issue()
 		if err != nil {
 			return err
 		}
-		e2, _ := entryOf(c)
-		urls = append(urls, e2.StatusListCredential+"#"+e2.StatusListIndex)
+		if url != url1 {
+			if idx != 0 {
+				return fmt.Errorf("first entry of the next page is %s#%d, expected index 0", url, idx)
+			}
+			break
+		}
+		if idx != preset+1 {
+			return fmt.Errorf("entry after last_issued_index=%d is %d", preset, idx)
+		}
+		last = idx
 	}
-	want := []string{e.StatusListCredential + "#" + strconv.Itoa(maxIndex), strings.TrimSuffix(e.StatusListCredential, "/1") + "/2#0"}
-	if urls[0] != want[0] || urls[1] != want[1] {
-		return fmt.Errorf("page size of the code is not %d: got %v want %v", maxIndex+1, urls, want)
+	if last < maxIndex-3 || last > maxIndex {
+		return fmt.Errorf("could not find the end of a status list page near index %d (last index seen: %d)", maxIndex, last)
 	}
+	w.lastIndex = last
 	return nil
 }
 
